@@ -526,6 +526,7 @@ def decode_ascii(buf):
         layout = None
         last = 0
         is_width = None
+        is_full = []
         data_start = offs[k]
         while True:
             cpos = offs[k] if k < nl else None
@@ -565,11 +566,18 @@ def decode_ascii(buf):
                     else:
                         if not re.match(r"^ *\d+$", sl):
                             raise CodecError(f"{name!r} col {icol}: string word {sl!r}")
-                        if is_width is None:
+                        # right-justified in a field of is_width; wider numbers fill it
+                        if sl.startswith(" "):
+                            if is_width is not None and is_width != len(sl):
+                                raise CodecError(f"{name!r}: string-word lines of width "
+                                                 f"{is_width} and {len(sl)}")
                             is_width = len(sl)
-                        elif is_width != len(sl):
-                            raise CodecError(f"{name!r}: string-word lines of width "
-                                             f"{is_width} and {len(sl)}")
+                            if any(w < is_width for w in is_full):
+                                raise CodecError(f"{name!r}: string-word field widths vary")
+                        else:
+                            is_full.append(len(sl))
+                            if is_width is not None and len(sl) < is_width:
+                                raise CodecError(f"{name!r}: string-word field widths vary")
                         IS = int(sl)
                         if IS > INT32_MAX:
                             raise CodecError(f"{name!r} col {icol}: string word {IS} "
@@ -606,7 +614,8 @@ def decode_ascii(buf):
         m = Matrix(name, nrow, ncol, form, mtype, layout, cols, neg_rows=neg,
                    name_raw=name_raw, closing=closing, fmt=fmt, i16=i16, perline=perline,
                    numlen=numlen, ndec=ndec, expchar=expchar,
-                   is_width=is_width if is_width is not None else 8, prefix_1p=p1)
+                   is_width=is_width if is_width is not None else min(is_full + [8]),
+                   prefix_1p=p1)
         m.numchar = used[0] or expchar
         # tokens that "%w.dE" of the parsed double does not reproduce (18-digit fields
         # written by a formatter that is not correctly rounded): kept verbatim, keyed by
